@@ -53,6 +53,10 @@ def roots(tier, seed):
                         case["explore"] = 0
                         out.append(case)
     out += ctrl.roots(tier, deep=False)
+    from .. import cover
+    for c in cover.roots_for(tier):
+        c["cover"] = True
+        out.append(c)
     return alpha.permute(out, seed)
 
 
@@ -112,6 +116,8 @@ def _post(base, recs, stats):
 
 
 def run_case(case):
+    if case.get("cover"):
+        return e1prop.run_case_generic({k: v for k, v in case.items() if k != "cover"}, oracles.c09)
     if case.get("stub"):
         return e1prop.run_case_generic(case, oracles.c09, menu=ctrl.menu, horizon=ctrl.horizon,
                                        extra_stats=ctrl.stats)
